@@ -42,8 +42,9 @@ def beta_n (v : α) : α := 0.125 * exp (-(v + 65.0) / 80.0)
 /-- total current density (mA/cm² for S/cm² and mV) -/
 def current (gNa gK gL eNa eK eL m h n v : α) : α :=
   gNa * (m * m * m) * h * (v - eNa) + gK * (n * n * n * n) * (v - eK) + gL * (v - eL)
-def defaults : List (String × α) :=
-  [("gNa", 0.12), ("gK", 0.036), ("gLeak", 0.0003), ("eNa", 50.0), ("eK", -77.0), ("eLeak", -54.3)]
+def defaults (pfx : String) : List (String × α) :=
+  [(pfx ++ "_gNa", 0.12), (pfx ++ "_gK", 0.036), (pfx ++ "_gLeak", 0.0003), (pfx ++ "_eNa", 50.0),
+   (pfx ++ "_eK", -77.0), (pfx ++ "_eLeak", -54.3)]
 end HH
 
 /-! ### Pospischil et al. 2008 -/
@@ -75,6 +76,13 @@ def u_inf (v vx : α) : α := 1.0 / (1.0 + exp ((v + vx + 81.0) / 4.0))
 def tau_u (v vx : α) : α :=
   (30.8 + (211.4 + exp ((v + vx + 113.2) / 5.0))) / (3.7 * (1.0 + exp ((v + vx + 84.0) / 3.2)))
 def cat_current (g e u v vx : α) : α := g * (s_inf v vx * s_inf v vx) * u * (v - e)
+/-- documented default parameters (jaxley docs; conductances S/cm², potentials mV, time ms) -/
+def leak_defaults (pfx : String) : List (String × α) := [(pfx ++ "_gLeak", 1e-4), (pfx ++ "_eLeak", -70.0)]
+def na_defaults (pfx : String) : List (String × α) := [(pfx ++ "_gNa", 0.05), ("eNa", 50.0), ("vt", -60.0)]
+def k_defaults (pfx : String) : List (String × α) := [(pfx ++ "_gK", 0.005), ("eK", -90.0), ("vt", -60.0)]
+def km_defaults (pfx : String) : List (String × α) := [(pfx ++ "_gKm", 4e-6), (pfx ++ "_taumax", 4000.0), ("eK", -90.0)]
+def cal_defaults (pfx : String) : List (String × α) := [(pfx ++ "_gCaL", 1e-4), ("eCa", 120.0)]
+def cat_defaults (pfx : String) : List (String × α) := [(pfx ++ "_gCaT", 4e-5), (pfx ++ "_vx", 2.0), ("eCa", 120.0)]
 end Posp
 
 /-! ### Abbott & Marder graded synapse -/
@@ -82,6 +90,7 @@ namespace AM
 def s_inf (vpre : α) : α := 1.0 / (1.0 + exp ((-35.0 - vpre) / 10.0))
 def tau_s (vpre kminus : α) : α := (1.0 - s_inf vpre) / kminus
 def current (g e s vpost : α) : α := g * s * (vpost - e)
+def defaults (pfx : String) : List (String × α) := [(pfx ++ "_gS", 1e-4), (pfx ++ "_e_syn", 0.0), (pfx ++ "_k_minus", 0.025)]
 end AM
 
 end
